@@ -1,0 +1,40 @@
+//go:build verif
+
+// Contracts for property C15 (ignore patterns are an exact filter) and C20 (tool process failures
+// are never swallowed). rematch / exitcode / globmatch are the (uninterpreted, pure) results of
+// regexp.MatchString, ExitCode and doublestar.MatchUnvalidated. Verified by govc.
+
+package actionlint
+
+//@ spec rematch(r: ref, s: string): bool
+//@ spec exitcode(e: ref): int
+//@ spec globmatch(p: string, path: string): bool
+//@ spec ipmatch(pats: IgnorePatterns, e: *Error): bool
+//@ lemma ipmatch_def: forall pats: IgnorePatterns, e: *Error :: ipmatch(pats, e) <==> (exists j :: 0 <= j && j < len(pats) && rematch(pats[j], e.Message))
+
+// a pattern list matches a diagnostic iff one of its expressions matches the message
+//@ func (IgnorePatterns).Match
+//@   props C15
+//@   anchor
+//@   uses ipmatch_def
+//@   ensures result == ipmatch(pats, err)
+//@   loop "range pats":
+//@     invariant forall jj :: 0 <= jj && jj <= range_i ==> !rematch(pats[jj], err.Message)
+
+// a diagnostic is kept iff neither a command line pattern nor a pattern of an applicable path
+// configuration matches its message; diagnostics are appended in their original order
+//@ func (*Linter).filterErrors
+//@   props C15
+//@   anchor
+//@   ensures len(l.ignorePats) == 0 && len(cfgs) == 0 ==> result == errs
+//@   loop "range errs":
+//@     body_calls append iff !(ipmatch(l.ignorePats, err) || (exists j :: 0 <= j && j < len(cfgs) && ipmatch(cfgs[j].Ignore, err)))
+//@     invariant len(filtered) <= range_i + 1
+//@   loop "range cfgs":
+//@     invariant forall jj :: 0 <= jj && jj <= range_i ==> !ipmatch(cfgs[jj].Ignore, err)
+
+// C20: a tool that was killed (negative exit code) or exited non-zero without output is an error
+//@ func (*cmdExecution).run
+//@   props C20
+//@   anchor
+//@   at_return result1 == nil && err != nil ==> istype(err, "*exec.ExitError") && exitcode(dyn(err, "*exec.ExitError").ProcessState) >= 0 && len(stdout) > 0
